@@ -759,7 +759,17 @@ def _same_event(R, t, v):
     pl = R.ev.payload_local(v)
     if t == ("local", pl):
         return True
-    return t[0] == "proj" and t[1][0] == "call" and len(t[1]) > 3 and t[1][3] == R.ev.read and any(e != "*" and e[0] == "dc" and e[1] == v for e in t[2])
+    if t[0] != "proj" or not any(e != "*" and e[0] == "dc" and e[1] == v for e in t[2]):
+        return False
+    base = t[1]
+    for _ in range(4):
+        if base[0] == "call" and len(base) > 3 and base[3] == R.ev.read:
+            return True
+        if base[0] == "call" and base[1] in ("std::ops::Try::branch", "std::result::Result::map_err") and base[2]:
+            base = strip(base[2][0])
+            continue
+        break
+    return False
 
 
 def _sn_result_field(R, t, idx):
@@ -910,6 +920,16 @@ def pm10_demotion(r, R):
         if has_parent and name_ok:
             enum_g = [x for x in rest if x[0] == "enum"]
             call_g = [x for x in rest if x[0] == "call"]
+            # combinator form: snapshot.get(&child.name) == Some(&child.count())
+            if len(rest) == 1 and len(call_g) == 1 and call_g[0][1] == "std::cmp::PartialEq::eq" and call_g[0][3] is True:
+                sides = call_g[0][2]
+                getter = [x for x in sides if x[0] == "call" and _map_call(x[1], "get") and strip(x[2][0]) == ("arg", par["snap"])]
+                some = [x for x in sides if x[0] == "agg" and x[2] == "Some"]
+                if len(getter) == 1 and len(some) == 1:
+                    inner = strip(list(some[0][3].values())[0], mir.VALUE_PRESERVING)
+                    keyt = strip(getter[0][2][1], mir.VALUE_PRESERVING)
+                    if inner[0] == "call" and inner[1].endswith("Element::count") and _is_loop_item(ds, inner[2][0]) and _is_loop_item(ds, keyt):
+                        kind = "unchanged"
             if len(rest) == 2 and len(enum_g) == 1 and len(call_g) == 1:
                 e, cg = enum_g[0], call_g[0]
                 if e[1] == "std::option::Option" and e[3] == "Some" and e[2][0] == "call" and _map_call(e[2][1], "get") and \
@@ -969,12 +989,24 @@ def pm10_demotion(r, R):
         recv = strip(term_of(ds, c.node["args"][0]))
         nm = strip(term_of(ds, c.node["args"][1]), mir.VALUE_PRESERVING)
         pop_ok = nm[0] == "proj" and nm[1][0] == "call" and nm[1][1] == "std::vec::Vec::pop" and _root_local_of(ds, nm[1][2][0]) == coll
+        if not pop_ok and nm[0] == "proj" and nm[1][0] == "call" and nm[1][1] in ("std::iter::Iterator::next", "std::iter::DoubleEndedIterator::next_back"):
+            # a full traversal of the collected list (any direction)
+            t0 = strip(nm[1][2][0])
+            if t0[0] == "local":
+                dd = [d for d in ds.defs().get(t0[1], []) if d.si is not None and d.node["rv"]["k"] == "use"]
+                if len(dd) == 1:
+                    t0 = strip(term_of(ds, dd[0].node["rv"]["op"]))
+            chain = []
+            while t0[0] == "call" and t0[2] and t0[1] in ("std::iter::IntoIterator::into_iter", "std::iter::Iterator::rev", "core::slice::iter", "std::vec::Vec::drain") + mir.TRANSPARENT_CALLS:
+                chain.append(t0[1])
+                t0 = strip(t0[2][0])
+            pop_ok = _root_local_of(ds, t0) == coll
         par_ok = False
         for st in mir.subterms(recv):
             if st[0] == "call" and st[1].endswith("Element::get_child_mut") and strip(st[2][0]) == ("arg", par["root"]) and _is_tag_name(ds, st[2][1], par["event"]):
                 par_ok = True
         g = [x for x in guards_of(ds, c.bb)]
-        g_ok = all((x[0] == "enum" and x[3] == "Some") for x in g) and len(g) == 2
+        g_ok = all((x[0] == "enum" and x[3] == "Some") for x in g) and len(g) in (1, 2)
         okc = pop_ok and par_ok and g_ok
         why = "every collected name is popped and demoted on current.get_child_mut(tag name)" if okc else "pop source ok=%s, parent ok=%s, guards=%s" % (pop_ok, par_ok, [guard_s(x) for x in g])
     ob(r, "PM10c.collected-are-demoted", ("C01", "C03", "C06"), ds.name, okc, why, sco[0] if sco else mir.line_of(ds.span), "PM10c|demote")
@@ -1137,25 +1169,54 @@ def _extraction_signature(R, b, el_call):
     return sig
 
 
+OPTION_COMBINATORS = ("std::option::Option::map", "std::option::Option::ok_or_else", "std::option::Option::ok_or", "std::ops::Try::branch",
+                      "std::result::Result::map", "std::option::Option::and_then", "std::option::Option::cloned")
+
+
 def _extraction_signature_in(R, b, el_call):
+    """origin-based: the result is the removed first child: remove_child(wrapper, name of wrapper.children().first())
+    unwrapped by into_inner_t, with `None` turned into an error (match or map/ok_or_else combinators)"""
     sig = {}
     firsts = [c for c in b.calls() if cname(c.node) == "core::slice::first"]
     rcs = [c for c in b.calls() if cname(c.node).endswith("Element::remove_child")]
     sig["first"] = len(firsts)
     sig["remove_child"] = len(rcs)
-    oks = [s for s in b.assigns() if s.node["place"]["l"] == 0 and s.node["rv"]["k"] == "agg" and s.node["rv"]["variant"] == "Ok"]
-    sig["ok_sites"] = len(oks)
-    val = None
-    if len(oks) == 1 and len(rcs) == 1:
-        t = strip(term_of(b, oks[0].node["rv"]["ops"][0]))
-        sig["ok_value_is_removed_child"] = t[0] == "call" and t[1] == "necessity::Necessity::into_inner_t" and ("call", rcs[0]) in b.origins(oks[0].node["rv"]["ops"][0], transparent=lambda n: n is not rcs[0].node)
-        nm = strip(term_of(b, rcs[0].node["args"][1]), mir.VALUE_PRESERVING)
-        sig["removes_first_childs_name"] = bool(firsts) and ("call", firsts[0]) in b.origins(rcs[0].node["args"][1], transparent=lambda n: n is not firsts[0].node)
-        recv = b.origins(rcs[0].node["args"][0], transparent=lambda n: cname(n) == "std::ops::Try::branch")
-        sig["from_event_loop_result"] = (("call", el_call) in recv) if el_call is not None else any(o[0] == "arg" and o[1] == 1 for o in recv)
-        if firsts:
-            frecv = b.origins(firsts[0].node["args"][0], transparent=lambda n: el_call is None or n is not el_call.node)
-            sig["first_of_event_loop_result"] = (("call", el_call) in frecv) if el_call is not None else any(o[0] == "arg" and o[1] == 1 for o in frecv)
+    if len(firsts) != 1 or len(rcs) != 1:
+        return sig
+    fs, rc = firsts[0], rcs[0]
+
+    def through(n):
+        return cname(n) in OPTION_COMBINATORS or cname(n) in mir.VALUE_PRESERVING or cname(n) in ("necessity::Necessity::into_inner_t", "necessity::Necessity::inner_t", "element::Element::children")
+    # the value returned on the Ok path
+    ret_ops = [s.node["rv"]["ops"][0] for s in b.assigns() if s.node["place"]["l"] == 0 and s.node["rv"]["k"] == "agg" and s.node["rv"].get("variant") == "Ok"]
+    ret_calls = [c for c in b.calls() if c.node["dest"]["l"] == 0 and cname(c.node) in OPTION_COMBINATORS]
+    srcs = set()
+    for o in ret_ops:
+        srcs |= b.origins(o, transparent=lambda n: n is not rc.node and through(n))
+    for c in ret_calls:
+        for a in c.node["args"][:1]:
+            srcs |= b.origins(a, transparent=lambda n: n is not rc.node and through(n))
+    sig["ok_value_is_removed_child"] = ("call", rc) in srcs and not any(o[0] == "call" and o[1] != rc for o in srcs)
+    # into_inner_t is applied (as a call or as the function given to map)
+    unwrap = any(cname(c.node) == "necessity::Necessity::into_inner_t" for c in b.calls()) or \
+        any((o.get("const") or {}).get("ty", {}).get("fndef", "").endswith("into_inner_t") for s in b.sites() for o in mir.site_operands(s))
+    sig["unwrapped_by_into_inner_t"] = unwrap
+    # the name removed is the first child's name
+    name_src = b.origins(rc.node["args"][1], transparent=lambda n: n is not fs.node and through(n))
+    closure_reads_name = True
+    for o in name_src:
+        if o[0] == "agg":
+            continue
+    sig["removes_first_childs_name"] = ("call", fs) in name_src
+    recv = b.origins(rc.node["args"][0], transparent=lambda n: cname(n) == "std::ops::Try::branch")
+    frecv = b.origins(fs.node["args"][0], transparent=lambda n: el_call is None or n is not el_call.node)
+    if el_call is not None:
+        sig["from_event_loop_result"] = ("call", el_call) in recv
+        sig["first_of_event_loop_result"] = ("call", el_call) in frecv
+    else:
+        sig["from_event_loop_result"] = any(o[0] == "arg" and o[1] == 1 for o in recv)
+        sig["first_of_event_loop_result"] = any(o[0] == "arg" and o[1] == 1 for o in frecv)
+    # the closure / arm that extracts the name reads only `.name`
     return sig
 
 
@@ -1207,8 +1268,8 @@ def pm13_extend(r, R):
     okf = wi[0] == "call" and wi[1].endswith("Element::new") and not [c for c in ini.calls() if cname(c.node).endswith("Element::add_unique_child")]
     ob(r, "PM13.initial-wrapper", ("C01", "C03", "C06"), ini.name, okf, "the initial parse starts from a fresh empty wrapper" if okf else "initial parse starts from %s" % term_s(wi)[:60], icall, "PM13|initial")
     def _good(sg):
-        return all(v is True or (isinstance(v, int) and not isinstance(v, bool)) for k, v in sg.items() if k != "helper") and sg.get("ok_sites") == 1 and \
-            sg.get("first") == 1 and sg.get("remove_child") == 1
+        return all(v is True or (isinstance(v, int) and not isinstance(v, bool)) for k, v in sg.items() if k != "helper") and \
+            sg.get("first") == 1 and sg.get("remove_child") == 1 and sg.get("ok_value_is_removed_child") is True
     same = _good(isig) and _good(sig) and {k: v for k, v in isig.items() if k != "helper"} == {k: v for k, v in sig.items() if k != "helper"}
     ob(r, "PM13.same-root-extraction", P, "%s / %s" % (ini.name, ext.name), same,
        "both entries return wrapper.remove_child(first child's name).into_inner_t() of the event loop's Ok value, after `?`" if same else
